@@ -271,12 +271,20 @@ def t3(prog, rep):
 
         # state: None-like sentinel 'clear' or the separator just consumed
         CLEAR = ("clear",)
+        # container walkers (they test for a closing bracket) consume their opening bracket with a bare `buf++`:
+        # whitespace may follow it as well ("[ ]" is an empty array)
+        closes = any(R[0] == "c" and R[1] in (ord("]"), ord("}")) for b in f.blocks.values() if b.cond is not None for op, L, R, _, _ in cond_atoms(b.cond, True))
+        opener = [e for e in f.all_elems() if e.is_incdec and e.op in ("post++", "pre++") and norm(e.kid(0)) == P and closes
+                  and not any(p.cls == "UnaryOperator" and p.op == "*" and p.kid(0) is not None and p.kid(0).strip() is e for p in f.all_elems())]
+        opener_pos = set(e.pos for e in opener if e.block.id == f.entry or e.block.id in [s for s in f.blocks[f.entry].succs if s is not None])
 
         def transfer(st, e):
             if e.is_assign and e.op == "=" and norm(e.kid(0)) == P:
                 r = e.kid(1).strip()
                 if r is not None and r.cls == "CallExpr" and r.callee == "skip_ws":
                     return CLEAR
+            if e.pos in opener_pos:
+                return ("sep", ord("["), e.pos)
             return st
 
         def refine(st, cond, kind):
@@ -301,6 +309,17 @@ def t3(prog, rep):
             if bad:
                 hits.setdefault(st[2], (e, st[1], bad))
         s.visit(visit)
+        for e in opener:
+            if e.pos not in opener_pos:
+                continue
+            n += 1
+            if e.pos in hits:
+                he, c, bad = hits[e.pos]
+                rep.bad("T3-sepws", "%s: after the opening bracket" % f.name, e.where,
+                        "after consuming the opening bracket the function %s (%s) without skipping whitespace first; '[ ]' and '{ }' are valid empty containers" % (bad, he.loc),
+                        function=f.name, construct="sepws:open")
+            else:
+                rep.ok("T3-sepws", "%s: after the opening bracket" % f.name, e.where, "skip_ws intervenes on every path")
         for b, op, ch in sep_conds:
             n += 1
             inst = "%s: after '%s'" % (f.name, chr(ch))
@@ -401,6 +420,18 @@ def t4(prog, rep):
         for op, L, R, _, _ in cond_atoms(b.cond, True):
             if R[0] == "c" and R[1] in (ord("["), ord("]")) and op == "!=":
                 br.add(chr(R[1]))
+    # address family: a literal is IPv6 exactly when it contains ':' (a '.' occurs in IPv4 literals and in IPv6 literals
+    # with an embedded dotted quad alike)
+    v6 = list(r.calls("sock_resolve_ipv6"))
+    v4 = list(r.calls("sock_resolve_ipv4"))
+    okf = len(v6) == 1 and len(v4) == 1
+    if okf:
+        a6 = [(op, L, R) for cond, truth in r.edge_conds(v6[0]) for op, L, R, _, _ in cond_atoms(cond, truth)]
+        a4 = [(op, L, R) for cond, truth in r.edge_conds(v4[0]) for op, L, R, _, _ in cond_atoms(cond, truth)]
+        def colon(L):
+            return L[0] == "call" and L[1] == "strchr" and L[3] == ("c", ord(":"))
+        okf = any(op == "!=" and colon(L) and R == ("c", 0) for op, L, R in a6) and any(op == "==" and colon(L) and R == ("c", 0) for op, L, R in a4)
+    rep.check(okf, "T4-sockaddr", "a bracketed literal is IPv6 exactly when it contains ':'", r.loc, "", function="sock_resolve", construct="family")
     rep.check(last_colon and br == {"[", "]"}, "T4-sockaddr", "sock_resolve accepts [addr]:port split at the last colon", r.loc, "", function="sock_resolve", construct="resolve-form")
 
 
